@@ -32,6 +32,7 @@ import ast
 import builtins
 import io
 import itertools
+import json
 import keyword
 import math
 import operator
@@ -63,11 +64,13 @@ PW_ORDER = ("auto", "math", "logic", "tool", "transform")
 # engines and tool sets
 # --------------------------------------------------------------------------------------------
 TOOL_CALLS: list = []  # (tool name, args, kwargs) of every tool body that ran
+TOOL_ARGV: list = []   # (positional values, keyword values) the tool bodies received (in-process use only)
 
 
 def _mk_tool(name):
     def body(*a, **k):
         TOOL_CALLS.append((name, len(a), tuple(sorted(k))))
+        TOOL_ARGV.append((a, k))
         return ("tool-ran", name)
 
     return SimpleTool(name=name, description="recording tool", func=body)
@@ -115,6 +118,7 @@ class _StrictUtf8Stdout:
 def call(engine, expr, pw):
     """One real metabolize call -> ('ok'|'fail'|'raise'|'badtype', detail, value)."""
     del TOOL_CALLS[:]
+    del TOOL_ARGV[:]
     try:
         if pw == "auto":
             r = engine.metabolize(expr)
@@ -129,6 +133,38 @@ def call(engine, expr, pw):
     if r.success:
         return ("ok", "", r.atp.value if r.atp is not None else None)
     return ("fail", _errclass(r.error), None)
+
+
+def call_legacy(engine, expr):
+    """One real digest_glucose call (the legacy string-in / string-out entry point, also what BioAgent uses)
+    -> ('ok'|'raise'|'badtype', detail, text).  Its contract is a str: the rendered value or a failure text."""
+    del TOOL_CALLS[:]
+    del TOOL_ARGV[:]
+    try:
+        r = engine.digest_glucose(expr)
+    except BaseException as e:  # noqa: BLE001
+        if isinstance(e, (KeyboardInterrupt,)):
+            raise
+        return ("raise", type(e).__name__, None)
+    if not isinstance(r, str):
+        return ("badtype", type(r).__name__, None)
+    return ("ok", "failure-text" if r.startswith("Metabolic Failure") else "rendered", r)
+
+
+def pure_literal(expr):
+    """Harness-side reference for 'the whole string is literal data' (what the data-transformation pathway is
+    documented to parse: JSON or a Python literal).  Written against json / ast directly, not the engine."""
+    t = expr.strip()
+    try:
+        json.loads(t)
+        return True
+    except Exception:  # noqa: BLE001
+        pass
+    try:
+        ast.literal_eval(t)
+        return True
+    except Exception:  # noqa: BLE001
+        return False
 
 
 def _errclass(err):
@@ -160,9 +196,14 @@ def short(v, n=80):
 # 1a. confinement: forbidden node classes x strict holes x pathways x tool sets
 # --------------------------------------------------------------------------------------------
 # Allowed expression forms, written from the property text (operators / pure functions+constants /
-# literals incl. list+tuple / registered tools).  Dict and Set literals are "don't care".
+# literals incl. list+tuple / registered tools).
 ALLOWED_NODES = {"Constant", "BinOp", "UnaryOp", "BoolOp", "Compare", "IfExp", "List", "Tuple", "Call", "Name"}
-DONTCARE_NODES = {"Dict", "Set"}
+# Dict and Set displays are not among the forms the statement lets a value be COMPUTED from, but they are literal
+# data, which the data-transformation pathway is documented to parse (json / ast.literal_eval).  Reading used:
+# on the computing pathways (math, logic, tool, and auto unless the whole string is pure literal data) an
+# evaluated Dict/Set node is a confinement breach in any strict hole; on the transform pathway it is "don't care".
+LITERAL_ONLY_NODES = {"Dict", "Set"}
+COMPUTE_PATHWAYS = ("math", "logic", "tool")
 
 # (class the probe stands for, source).  Wherever Python itself can evaluate the probe it yields a
 # small recognisable value, so an evaluator that grew support for the construct would succeed.
@@ -189,6 +230,9 @@ PROBES = [
     ("Name-outside", "__import__('os')"), ("Name-outside", "getattr(1, 'real')"), ("Name-outside", "eval('1')"),
     ("Name-outside", "__builtins__"), ("Name-outside", "undefined_name"), ("Name-outside", "mito_mod"),
     ("Name-outside", "self"), ("Name-outside", "globals()"),
+    # literal-only classes (judged on the computing pathways only, see LITERAL_ONLY_NODES)
+    ("Dict", "{1: 2}"), ("Dict", "{}"), ("Dict", "{'a': [1, 2]}"), ("Dict", "len({1: 2})"), ("Dict", "{**{1: 2}}"),
+    ("Set", "{1, 2}"), ("Set", "len({1, 2})"), ("Set", "{(1, 2), 'a'}"),
 ]
 H = "§"  # hole marker
 
@@ -301,7 +345,7 @@ def node_class_table():
         for nm in names:
             covered.setdefault(nm, 0)
             covered[nm] += 1
-    forbidden = [c for c in found if c not in ALLOWED_NODES and c not in DONTCARE_NODES]
+    forbidden = [c for c in found if c not in ALLOWED_NODES]  # incl. the literal-only classes
     unprobed = [c for c in forbidden if c not in covered]
     return found, forbidden, unprobed
 
@@ -313,6 +357,27 @@ def _accept_lazy(value, acc, pw):
         if type(value) is bool and value == bool(a):
             return True  # logic pathway (forced or auto-detected) wraps the result in bool()
     return False
+
+
+def judge_conf(cls, kind, acc, expr, pw, ts, res, detail, value, ran):
+    """Confinement oracle for one evaluation of a forbidden probe -> (key, what) | 'lazy-skipped' | 'literal-data' | None."""
+    if res in ("raise", "badtype"):
+        return (f"raises:{detail}:silent", f"metabolize({expr!r}, pathway={pw}) raised {detail} "
+                f"(expected a MetabolicResult)")
+    if ran:
+        return (f"tool-ran-with-forbidden-arg:{cls}", f"tool body ran for {expr!r} on pathway {pw} "
+                f"tools={TOOLSETS[ts]}: its {cls} argument must have been evaluated (expected failure)")
+    if res != "ok":
+        return None
+    if cls in LITERAL_ONLY_NODES and (pw == "transform" or (pw == "auto" and pure_literal(expr))):
+        return "literal-data"  # literal parsing of pure literal data: not judged
+    if kind in ("lazy", "kwarg") and _accept_lazy(value, acc, pw):
+        return "lazy-skipped"
+    where = "strict hole" if kind not in ("lazy", "kwarg") else "skippable hole but the value shows it was used"
+    return (f"forbidden-evaluated:{cls}:{pw}",
+            f"metabolize({expr!r}, pathway={pw}, tools={TOOLSETS[ts]}) succeeded with {short(value)}; the {cls} "
+            f"construct sits in a {where} so it was evaluated"
+            f"{' on a computing pathway' if cls in LITERAL_ONLY_NODES else ''} (expected a failure result)")
 
 
 def conf_worker(job):
@@ -337,22 +402,10 @@ def conf_worker(job):
                     ran = bool(TOOL_CALLS)
                     n_eval += 1
                     outcomes.add((res, detail if res != "ok" else type(value).__name__, kind, ran))
-                    key = None
-                    if res in ("raise", "badtype"):
-                        key = (f"raises:{detail}:silent", f"metabolize({expr!r}, pathway={pw}) raised {detail} "
-                               f"(expected a MetabolicResult)")
-                    elif ran:
-                        key = (f"tool-ran-with-forbidden-arg:{cls}", f"tool body ran for {expr!r} on pathway {pw} "
-                               f"tools={TOOLSETS[ts]}: its {cls} argument must have been evaluated (expected failure)")
-                    elif res == "ok":
-                        if kind in ("lazy", "kwarg") and _accept_lazy(value, acc, pw):
-                            outcomes.add(("lazy-skipped", cls))
-                        else:
-                            key = (f"forbidden-evaluated:{cls}:{pw}",
-                                   f"metabolize({expr!r}, pathway={pw}, tools={TOOLSETS[ts]}) succeeded with "
-                                   f"{short(value)}; the {cls} construct sits in a "
-                                   f"{'strict hole' if kind not in ('lazy', 'kwarg') else 'skippable hole but the value shows it was used'}"
-                                   f" so it was evaluated (expected a failure result)")
+                    key = judge_conf(cls, kind, acc, expr, pw, ts, res, detail, value, ran)
+                    if isinstance(key, str):
+                        outcomes.add((key, cls))
+                        key = None
                     if key:
                         v = viol.setdefault(key[0], {"what": key[1], "n": 0,
                                                      "case": {"sub": "confinement", "expr": expr, "pw": pw, "ts": ts,
@@ -368,13 +421,8 @@ def replay_confinement(case):
     eng = mk_engine(case["ts"])
     expr, pw, cls, kind = case["expr"], case["pw"], case["cls"], case["kind"]
     res, detail, value = call(eng, expr, pw)
-    if res in ("raise", "badtype"):
-        return [(f"raises:{detail}:silent", f"metabolize({expr!r}, {pw}) raised {detail}")]
-    if TOOL_CALLS:
-        return [(f"tool-ran-with-forbidden-arg:{cls}", f"tool body ran for {expr!r}")]
-    if res == "ok" and not (kind in ("lazy", "kwarg") and _accept_lazy(value, tuple(case.get("accept") or ()), pw)):
-        return [(f"forbidden-evaluated:{cls}:{pw}", f"metabolize({expr!r}, {pw}) succeeded with {short(value)}")]
-    return []
+    j = judge_conf(cls, kind, tuple(case.get("accept") or ()), expr, pw, case["ts"], res, detail, value, bool(TOOL_CALLS))
+    return [j] if isinstance(j, tuple) else []
 
 
 # --------------------------------------------------------------------------------------------
@@ -671,8 +719,6 @@ def replay_tricks(case):
 # --------------------------------------------------------------------------------------------
 # forked children (crash isolation for totality, kernel-enforced CPU deadline for the resource clause)
 # --------------------------------------------------------------------------------------------
-import json  # noqa: E402
-
 AS_LIMIT = 4 << 30
 WALL_BACKSTOP = 90.0  # only guards against a child that neither burns CPU nor exits (never the verdict)
 
